@@ -24,12 +24,8 @@ open RealLike
 
 variable {α : Type} [RealLike α]
 
-/-! ## generator maps (continued from Hand/Samplers.lean: `std01`, `open01`, `uniform01`) -/
-
-/-- `rng.sample(OpenClosed01)`: float.rs:120-133
-    `value = next_u64() >> (64 - 53); scale * (value + 1)` with `scale = 1/2^53`: a multiple of `2⁻⁵³` in `[2⁻⁵³, 1]`.
-    (`value + 1 ≤ 2^53` is exactly representable and `scale` is a power of two: no rounding.) -/
-def openClosed01 (w : Nat) : α := ofNatR ((w >>> 11) + 1) / ofNatR (2 ^ 53)
+/-! ## generator maps: `std01`, `open01`, `uniform01` of Hand/Samplers.lean (`OpenClosed01` — `((w >> 11) + 1) / 2^53`,
+    float.rs:120-133 — is no longer used by any sampler of rv after the repair of `Laplace::draw`) -/
 
 /-- the scripted generator of the harness (`wire.rs::Script`): replays `ws`, then repeats the last word for ever
     (`0` for an empty script) -/
@@ -61,9 +57,10 @@ def boolToNat (b : Bool) : Nat := if b then 1 else 0
 
 /-! ## Laplace (dist/laplace.rs:213-232) -/
 
-/-- `Laplace::draw`, laplace.rs:228-231: `u = rng.sample(OpenClosed01)` (NOT `Open01`: the variate `1` is delivered);
-    `self.b.mul_add(-laplace_partial_draw(u), self.mu)`.  `laplace_partial_draw` (laplace.rs:213-217) is generated
-    (`Gen.laplace_partial_draw`; its inner `2.0.mul_add(-|r|, 1.0)` is exact in binary64 fused or not: `2|r|` is exact). -/
+/-- `Laplace::draw`, laplace.rs:228-231: `u = rng.sample(rand_distr::Open01)` (`open01 word`; before the repair 703a0fb it
+    was `OpenClosed01`, whose variate `1` gave an infinite draw); `self.b.mul_add(-laplace_partial_draw(u), self.mu)`.
+    `laplace_partial_draw` (laplace.rs:213-217) is generated (`Gen.laplace_partial_draw`; its inner `2.0.mul_add(-|r|, 1.0)`
+    is exact in binary64 fused or not: `2|r|` is exact). -/
 def laplaceDrawWith (fma : α → α → α → α) (d : Gen.Laplace α) (u : α) : α :=
   fma d.b (-(Gen.laplace_partial_draw u)) d.mu
 
@@ -82,15 +79,17 @@ def gevDraw (d : Gen.Gev α) (u : α) : α := gevDrawWith mulAdd d u
 
 /-! ## Kumaraswamy (dist/kumaraswamy.rs:368-373), UnitPowerLaw (dist/unit_powerlaw.rs:223-232) -/
 
-/-- `Kumaraswamy::draw`: `p = rng.gen::<f64>(); invcdf(p, self.a, self.b)`; `u = std01 word` (the variate `0` is delivered) -/
+/-- `Kumaraswamy::draw`, kumaraswamy.rs:369-372: `p = rng.sample(rand_distr::Open01); invcdf(p, self.a, self.b)`;
+    `u = open01 word` (before the repair fb54024: `rng.gen::<f64>()`, whose variate `0` gave the unsupported draw `0`) -/
 def kumaraswamyDraw (d : Gen.Kumaraswamy α) (u : α) : α := Gen.invcdf u d.a d.b
 
-/-- `UnitPowerLaw::draw`, unit_powerlaw.rs:224-226: `self.invcdf(rng.gen::<f64>())` = `p.powf(self.alpha_inv())`; `u = std01 word` -/
+/-- `UnitPowerLaw::draw`, unit_powerlaw.rs:224-226: `self.invcdf(rng.sample::<f64, _>(rand_distr::Open01))` =
+    `p.powf(self.alpha_inv())`; `u = open01 word` (before the repair c9b85ee: `rng.gen::<f64>()`) -/
 def unitPowerLawDraw (d : Gen.UnitPowerLaw α) (u : α) : α := Gen.UnitPowerLaw.invcdf_real d u
 
-/-- `UnitPowerLaw::sample`, unit_powerlaw.rs:228-231 — a SEPARATE implementation:
-    `alpha_inv = self.alpha_inv(); (0..n).map(|_| rng.gen::<f64>().powf(alpha_inv))` (f64 kind; for `f32` the variate is
-    `rng.gen::<f32>()`, 24 bits of a `next_u32()` — not modelled) -/
+/-- `UnitPowerLaw::sample`, unit_powerlaw.rs:228-237 — a SEPARATE implementation:
+    `alpha_inv = self.alpha_inv(); (0..n).map(|_| rng.sample::<f64, _>(Open01).powf(alpha_inv))` (f64 kind; for `f32` the
+    variate is the 23-bit `Open01` of a `next_u32()` — not modelled) -/
 def unitPowerLawSample (d : Gen.UnitPowerLaw α) (us : List α) : List α :=
   let alphaInv := Gen.UnitPowerLaw.alpha_inv d
   us.map (fun u => powf u alphaInv)
@@ -102,23 +101,26 @@ def unitPowerLawSample (d : Gen.UnitPowerLaw α) (us : List α) : List α :=
 def fromF64OrMax (kbits : Nat) (v : α) : Nat :=
   if gt v (-(1.0 : α)) && lt v (ofNatR (2 ^ kbits)) then toNat v else 2 ^ kbits - 1
 
-/-- `Geometric::inversion_draw_method`, geometric.rs:168-176: `u = Uniform::new(0.0, 1.0).unwrap().draw(rng)` (rv's Uniform
-    → `rand` `Uniform::new(0,1)` = `uniform01 word`, the variate `0` is delivered);
+/-- `Geometric::inversion_draw_method`, geometric.rs:167-177: `u = rng.sample(rand_distr::Open01)` (`open01 word`; before the
+    repair ca0686c: rv's `Uniform::new(0,1)`, whose variate `0` gave `X::MAX`);
     `X::from_f64((1.0 - u).log(1.0 - p).ceil() - 1.0).unwrap_or_else(X::max_value)`; `x.log(b) = x.ln() / b.ln()` -/
 def geomInversion (kbits : Nat) (p u : α) : Nat :=
   fromF64OrMax kbits (ceil (logb ((1.0 : α) - u) ((1.0 : α) - p)) - (1.0 : α))
 
-/-- the `while u > sum` loop of `Geometric::search_draw_method`, geometric.rs:189-197; `none` = fuel exhausted -/
+/-- the `while u > sum` loop of `Geometric::search_draw_method`, geometric.rs:192-202 (after the repair ca0686c):
+    `prod *= q; let next = sum + prod; if next == sum { break; } sum = next; t = t.saturating_add(1)` — the `break` fires when
+    the partial sums have stagnated below `u` in binary64; `none` = fuel exhausted -/
 def geomSearchLoop (kbits : Nat) (q u : α) : Nat → Nat → α → α → Option Nat
   | 0, _, _, _ => none
   | fuel + 1, t, sum, prod =>
     if gt u sum then
       let prod := prod * q
-      let sum := sum + prod
-      geomSearchLoop kbits q u fuel (min (t + 1) (2 ^ kbits - 1)) sum prod   -- `t.saturating_add(X::one())`
+      let next := sum + prod
+      if feq next sum then some t                                                -- `break`
+      else geomSearchLoop kbits q u fuel (min (t + 1) (2 ^ kbits - 1)) next prod   -- `t.saturating_add(X::one())`
     else some t
 
-/-- `Geometric::search_draw_method`, geometric.rs:180-198: `u = rng.gen::<f64>()` (= `std01 word`) -/
+/-- `Geometric::search_draw_method`, geometric.rs:181-204: `u = rng.gen::<f64>()` (= `std01 word`) -/
 def geomSearch (kbits : Nat) (fuel : Nat) (p u : α) : Option Nat :=
   geomSearchLoop kbits ((1.0 : α) - p) u fuel 0 p p
 
@@ -128,7 +130,7 @@ def geomDraw (kbits fuel : Nat) (d : Gen.Geometric α) (ws : List Nat) : Outcome
     match geomSearch kbits fuel d.p (std01 (wordAt ws 0)) with
     | some t => .ok t 1
     | none => .hang
-  else .ok (geomInversion kbits d.p (uniform01 (wordAt ws 0))) 1
+  else .ok (geomInversion kbits d.p (open01 (wordAt ws 0))) 1
 
 /-! ## DiscreteUniform (dist/discrete_uniform.rs:141-149) through `rand::distributions::Uniform::new_inclusive` -/
 
@@ -216,7 +218,7 @@ def categoricalSample (d : Gen.Categorical α) (us : List α) : Option (List Nat
   lnPflipsAll d.ln_weights true us
 
 /-- `Mixture::<Laplace>::draw`, mixture.rs:418-421: `k = pflips(&self.weights, 1, rng)[0]` (word 0, `uniform01`);
-    `self.components[k].draw(rng)` (word 1, `openClosed01`).  `none` = panic of `pflips` or index out of bounds. -/
+    `self.components[k].draw(rng)` (word 1, `open01`).  `none` = panic of `pflips` or index out of bounds. -/
 def mixtureLaplaceDrawWith (fma : α → α → α → α) (weights : List α) (comps : List (Gen.Laplace α)) (w0 w1 : Nat) :
     Option α :=
   match pflips1 weights (uniform01 w0) with
@@ -224,7 +226,7 @@ def mixtureLaplaceDrawWith (fma : α → α → α → α) (weights : List α) (
   | some k =>
     match comps[k]? with
     | none => none
-    | some c => some (laplaceDrawWith fma c (openClosed01 w1))
+    | some c => some (laplaceDrawWith fma c (open01 w1))
 
 /-- `Mixture::<Laplace>::sample`, mixture.rs:423-429 — a SEPARATE implementation with a DIFFERENT use of the stream:
     `pflips(&self.weights, n, rng)` reads the first `n` words (all component indices), then the component draws read the
@@ -237,7 +239,7 @@ def mixtureLaplaceSampleWith (fma : α → α → α → α) (weights : List α)
     collect ((enumL ks).map (fun (j, k) =>
       match comps[k]? with
       | none => none
-      | some c => some (laplaceDrawWith fma c (openClosed01 (wordAt ws (n + j))))))
+      | some c => some (laplaceDrawWith fma c (open01 (wordAt ws (n + j))))))
 
 /-! ## InvGaussian (dist/invgaussian.rs:267-291): transform of a standard normal `v` and a uniform `z` -/
 
@@ -257,12 +259,12 @@ def invGaussianDraw (d : Gen.InvGaussian α) (v z : α) : α := invGaussianDrawW
 
 /-! ## VonMises (dist/vonmises.rs:257-287): Best–Fisher rejection loop -/
 
-/-- constants of the loop, vonmises.rs:259-261.  NOTE: Best & Fisher (1979) have `ρ = (τ − √(2τ)) / (2κ)`; the code has
-    `(tau * (2.0 * tau).sqrt()) / (2.0 * self.k)` (a product).  Any `r > 1` gives a correct rejection sampler (the
-    acceptance test `u₂ ≤ c·e^{1−c}` bounds the density ratio for every `r`), only the acceptance rate suffers. -/
+/-- constants of the loop, vonmises.rs:259-261: `tau = 1 + sqrt(4k² + 1)`, `rho = (tau − sqrt(2 tau)) / (2k)` (Best & Fisher
+    1979; before the repair 29e267e the code had the product `tau * sqrt(2 tau)`, which made the loop practically endless for
+    `k ≥ 9`), `r = (1 + rho²) / (2 rho)` (`= tau / (2k)` over exact arithmetic, `C04.vonMisesR_closed`). -/
 def vonMisesRWith (fma : α → α → α → α) (k : α) : α :=
   let tau := (1.0 : α) + sqrt (fma (4.0 : α) (k * k) (1.0 : α))
-  let rho := (tau * sqrt ((2.0 : α) * tau)) / ((2.0 : α) * k)
+  let rho := (tau - sqrt ((2.0 : α) * tau)) / ((2.0 : α) * k)
   fma rho rho (1.0 : α) / ((2.0 : α) * rho)
 
 /-- one pass of the loop body given `u1 u2 u3` (all `Open01`): `some (some x)` = accepted and returned `x`,
